@@ -35,7 +35,14 @@ def _run(ck: Check, repo: Repo) -> None:
     from . import c08
     sub8 = Check("C08", ck.tier, ck.repo_root)
     sub8.known = []
-    c08.run(sub8, repo)
+    # (C08 in turn shares the projection obligations of this check as C08.11: not while it runs nested in here)
+    from . import _c08_r3
+    prev = _c08_r3._ACTIVE
+    _c08_r3._ACTIVE = True
+    try:
+        c08.run(sub8, repo)
+    finally:
+        _c08_r3._ACTIVE = prev
     ck.rule("C18.7", "the source distribution and the Bellman-shifted support come from one batch and from the target network as held at entry of learn(): the 1-step, n-step "
                      "and combined losses read observation, action, reward, next observation and done from the same sampled batch, and the soft update follows the optimizer "
                      "step (obligations of C08.4 / C08.7 on RainbowDQN, shared with the C08 check)")
